@@ -68,12 +68,30 @@ def seeded_mutations(pid):
     return out
 
 
+def benign_mutations(pid):
+    """independently written behaviour-preserving refactorings kept under /verif/benign: those touching the
+    files property `pid` is anchored in must leave it silent"""
+    import glob
+    import json
+    out = []
+    base = os.path.join(os.path.dirname(os.path.dirname(os.path.abspath(__file__))), 'benign')
+    for mf in sorted(glob.glob(os.path.join(base, '*', 'meta.json'))):
+        try:
+            meta = json.load(open(mf))
+        except (OSError, ValueError):
+            continue
+        if pid in meta.get('relevant_properties', []):
+            d = os.path.dirname(mf)
+            out.append({'id': 'benign:' + os.path.basename(d), 'kind': 'benign', 'patch': os.path.join(d, 'patch.diff'), 'edits': []})
+    return out
+
+
 def analyse(pid, repo, tier='quick'):
     """run the rules of one property on `repo`; returns the Report (not finished, nothing printed)"""
     rep = report.Report(pid, tier, 0)
     mod = importlib.import_module('cstlsa.rules.' + pid.lower())
     try:
-        m = model.Model(config='release', repo=repo)
+        m = model.Model(config='release', repo=repo, want_inl=(pid != 'C18'))
         mod.run(m, rep, tier)
     except model.ModelError as e:
         rep.analysis_broken('model: %s' % e)
@@ -129,7 +147,7 @@ def baseline_violations(pid, repo):
 
 def run_matrix(pid, repo, muts, workers=4):
     from concurrent.futures import ThreadPoolExecutor
-    muts = list(muts) + seeded_mutations(pid)
+    muts = list(muts) + seeded_mutations(pid) + benign_mutations(pid)
     base = baseline_violations(pid, repo)
     results = []
     with ThreadPoolExecutor(max_workers=workers) as ex:
